@@ -20,6 +20,9 @@ structure St where
   fresh : Bool := false               -- nothing touched the operators' files since the last successful load
   cleanLoad : Bool := false           -- that load started from a wiped working storage
   held : Option (Published × Nat × FS) := none   -- a creation parked before its n-th storage call; storage at its start
+  hasSp : Bool := false               -- cluster mode: a savepoint was taken
+  booted : Bool := false              -- cluster mode: the assembly was deployed
+  idOffset : Nat := 0                 -- ids the store would hand out if existing savepoints were counted, minus those it does
   repaired : List (Nat × FS) := []    -- D53: savepoints whose artifact differs from the one the repair gives (that storage)
   frozen : Bool := false
   wiped : Bool := false
@@ -110,13 +113,23 @@ def workDiff (old new : FS) : List WorkOp :=
     | _, _ => none
   dels ++ puts
 
+/-- the same for the job snapshot files (written and removed by the model's own publications) -/
+def jobDiff (old new : FS) : List WorkOp :=
+  let keys := fun (fs : FS) => (dedupKeys (fs.map (·.1)) []).filter (fun p => p.isWork && !isWorkFile p)
+  let puts := (keys new).filterMap fun p => match p, read new p with
+    | .work u, some c => some (WorkOp.put u c)
+    | _, _ => none
+  let dels := (keys old).filterMap fun p => match p, read new p with
+    | .work u, none => some (WorkOp.del u)
+    | _, _ => none
+  dels ++ puts
+
 def spListing (fs : FS) (id : Nat) : String := listing fs (fun p => p.inSp id)
 
 /-- `finishSnapshotAsync` in one piece (nothing else happens meanwhile) -/
 def release (st st' : St) (k : Nat) : St × String :=
   if st.wiped then (st', "wiped") else
   if !st.dumped then (st', "nodump") else
-  if st.held.isSome then (st', "busy") else
   match st.parked[k]? with
   | none => (st', "nothing")
   | some pub =>
@@ -129,6 +142,13 @@ def release (st st' : St) (k : Nat) : St × String :=
     else if pub.2 then ({ st2 with created := (id, r.1) :: st.created }, s!"published {id} savepoint")
     else (st2, s!"published {pub.1.id}")
 
+/-- open finding (savepoint ids reused): after a start from a savepoint, with an existing savepoint of a higher id in
+the file store, the store hands out ids that name existing savepoint directories; the spec counts them -/
+def kfReuse : String := "D66"
+
+def reuseTag (st : St) (render : Nat → String) (id : Nat) : String :=
+  if st.idOffset > 0 then render id ++ " #spec " ++ render (id + st.idOffset) ++ " #kf " ++ kfReuse else render id
+
 def step (st : St) (line : List String) : St × String :=
   let (op, fed) := splitFeed line
   let touches := match op with
@@ -140,21 +160,24 @@ def step (st : St) (line : List String) : St × String :=
   | ["put", _, _, _] | ["del", _, _] | ["put", _, _] =>
       if st.wiped then (st', "wiped") else if st.frozen then (st', "frozen") else (st', "ok")
   -- cluster mode (real Job + workers): theorem instances evaluated by the implementation side
-  | ["boot"] => (st', "running")
-  | ["feed", _, _] => (st', "ok")                    -- after a restart: C14.savepoint_roundtrip (+ C08/C06 for the state)
-  | ["ckpt", _] => (st', "done")
-  | ["savepoint", _] | ["savepoint", _, "fold"] => (st', "savepoint ok")   -- C14.savepoint_folds / folded_savepoint_published
-  | ["restart", _, _] => (st', "restored ok")        -- C14.savepoint_roundtrip: loaded snapshot = the savepoint's
+  | ["boot"] => ({ st' with booted := true }, "running")
+  | ["feed", _, _] => (st', if st.booted then "ok" else "not-booted")   -- after a restart: C14.savepoint_roundtrip (+ C08/C06)
+  | ["ckpt", _] => (st', if st.booted then "done" else "not-booted")
+  | ["savepoint", _] | ["savepoint", _, "fold"] =>                       -- C14.savepoint_folds / folded_savepoint_published
+      if st.booted then ({ st' with hasSp := true }, "savepoint ok") else (st', "not-booted")
+  | ["restart", _, _] =>                                                 -- C14.savepoint_roundtrip
+      (st', if !st.booted then "not-booted" else if !st.hasSp then "no-savepoint" else "restored ok")
+  | ["timersdue"] => (st', if st.booted then "ok" else "not-booted")     -- pending timers are part of the restored state
   | ["ckpt"] =>
       if !live then (st', "wiped") else
       match createCheckpoint st.store st.nOps with
-      | (s, .ckpt id) => ({ st' with store := s, acked := [], srcAcked := false }, s!"ckpt {id}")
+      | (s, .ckpt id) => ({ st' with store := s, acked := [], srcAcked := false }, reuseTag st (fun i => s!"ckpt {i}") id)
       | (_, _) => (st', "inprogress")
   | ["sp"] =>
       if !live then (st', "wiped") else
       match createSavepoint st.store st.nOps with
-      | (s, .sp id true) => ({ st' with store := s, acked := [], srcAcked := false }, s!"sp {id} created")
-      | (s, .sp id false) => ({ st' with store := s }, s!"sp {id} folded")
+      | (s, .sp id true) => ({ st' with store := s, acked := [], srcAcked := false }, reuseTag st (fun i => s!"sp {i} created") id)
+      | (s, .sp id false) => ({ st' with store := s }, reuseTag st (fun i => s!"sp {i} folded") id)
       | (_, _) => (st', "sp-already")
   | ["opck", i] =>
       if !live then (st', "wiped") else if st.frozen then (st', "frozen") else
@@ -202,7 +225,12 @@ def step (st : St) (line : List String) : St × String :=
       match st.parked[natOr k]?, fed with
       | none, _ => (st', "nothing")
       | some pub, "held" :: _ =>
-        ({ st' with held := some (pub, natOr n, st.fs), parked := st.parked.eraseIdx (natOr k) }, "held")
+        -- before the creation starts the job snapshot is written, the snapshot becomes the completed one and the
+        -- obsolete job snapshots are removed (finishSnapshotAsync up to CreateSavepointArtifact)
+        let id := pub.1.id
+        let fs1 := cleanup (write (.work (jobURI id)) (.job pub.1) st.fs) (st.completed.filter (· < id))
+        ({ st' with held := some (pub, natOr n, fs1), fs := fs1, parked := st.parked.eraseIdx (natOr k),
+                    completed := id :: st.completed.filter (· ≥ id) }, "held")
       | some _, _ => release st st' (natOr k)
   | ["resume"] =>
       match st.held with
@@ -211,21 +239,30 @@ def step (st : St) (line : List String) : St × String :=
         if !st.dumped then (st', "nodump") else
         let id := pub.1.id
         -- what the running job did to the working storage meanwhile happens just before the n-th storage call
-        let sched : Sched := List.replicate n [] ++ [workDiff fs0 st.fs]
-        let start := write (.work (jobURI id)) (.job pub.1) fs0
+        -- (operators' files as dumped; job snapshot files as the model's own publications and cleanups left them)
+        let env := workDiff fs0 st.fs ++ jobDiff fs0 st.fs
+        let sched : Sched := List.replicate n [] ++ [env]
+        -- (savepoint directories as they are now: another publication may have created one meanwhile)
+        let start := st.fs.filter (fun e => !e.1.isWork) ++ fs0.filter (fun e => e.1.isWork)
         let run := fun (m : DocMode) =>
-          if pub.2 then createArtifactS lister m start (jobURI id) pub.1 sched else (applyWork start (workDiff fs0 st.fs), true)
+          if pub.2 then createArtifactS lister m start (jobURI id) pub.1 sched else (applyWork start env, true)
         let r := run docMode
         let spec := run .writeRead
-        let st2 := { st' with fs := cleanup r.1 (st.completed.filter (· < id)), held := none, released := true,
-                              completed := id :: st.completed.filter (· ≥ id) }
+        let st2 := { st' with fs := r.1, held := none, released := true }
         let render := fun (x : FS × Bool) =>
           if !x.2 then s!"savepoint-error {id}" else if pub.2 then s!"published {id} savepoint" else s!"published {id}"
         let st3 := if r.2 && pub.2 then { st2 with created := (id, start) :: st.created } else st2
         -- D53: the code copies the document file as it is by then; the property needs the document that was listed
         let differs := docMode == .copyFile && (r.2 != spec.2 || spListing r.1 id != spListing spec.1 id)
         let st4 := if differs then { st3 with repaired := (id, spec.1) :: st.repaired } else st3
-        if render r == render spec then (st4, render r) else (st4, render r ++ " #spec " ++ render spec ++ " #kf D53")
+        -- D65 (open): the creation copies the job snapshot LAST; the next publication's cleanup may have removed it by then.
+        -- The property wants the requested savepoint: what the creation gives if that file is left alone.
+        let envKeepJob := env.filter (fun w => w.uri != jobURI id)
+        let kept := if pub.2 then createArtifactS lister docMode start (jobURI id) pub.1 (List.replicate n [] ++ [envKeepJob]) else r
+        let jobGone := (read st.fs (.work (jobURI id))).isNone
+        if render r != render spec then (st4, render r ++ " #spec " ++ render spec ++ " #kf D53")
+        else if pub.2 && jobGone && !r.2 && kept.2 then (st4, render r ++ " #spec " ++ render kept ++ " #kf D65")
+        else (st4, render r)
   | ["art"] =>
       -- only complete artifacts (those with a job.savepoint); leftovers of failed creations are not compared
       let complete := fun (id : Nat) => (read st.fs (.spJob id)).isSome
@@ -255,7 +292,9 @@ def step (st : St) (line : List String) : St × String :=
         | none => x
       match startStore lister st.fs (natOr id) with
       | (fs, some (s, store)) =>
-        ({ st' with fs := fs, loaded := some s, store := store, acked := [], srcAcked := false,
+        -- the counter the store would start from if it also counted the existing savepoints (proposed repair)
+        let specCounter := startCounter true fs s
+        ({ st' with fs := fs, loaded := some s, store := store, idOffset := specCounter - store.ckptId, acked := [], srcAcked := false,
                     parked := [], wiped := false, frozen := false, completed := [s.id], fresh := true, cleanLoad := st.wiped,
                     held := none },
          tag s!"loaded {rContent (.job s)}")
